@@ -2,7 +2,9 @@
 (* C10: cropping a progressive file yields exactly a prefix of every track.
 
    Abstract progressive file: 1..2 tracks; a track = per-sample arrays (duration, size, composition
-   offset, sync) in its own timescale + a chunking; chunks of the tracks are interleaved in mdat.
+   offset, sync) in its own timescale + a chunking; chunks of the tracks are interleaved in mdat
+   (round robin in trak order or, layout variant 6 of the replay, in reverse trak order: the first chunk
+   in mdat then belongs to the last trak of the moov).
    Prop  : with E = start time of the first sync sample of the reference track (first video track,
            else first audio track; a track without stss has only sync samples) at or after the requested
            duration, and k_t = number of samples of track t that start before E (E converted to the
